@@ -20,10 +20,12 @@ Print Assumptions C06_mutex.
 
 (* the result of an execution is recorded before the lock can be released *)
 Theorem C06_recorded_before_release : forall p f s s',
-  lapply (LRelease p f) s = Some s' -> has_key f (running s) = false.
+  lapply (LRelease p f) s = Some s' ->
+  has_key f (running s) = false \/ (holder s' = holder s /\ running s' = running s).
 Proof. exact release_after_record. Qed.
 Check C06_recorded_before_release : forall p f s s',
-  lapply (LRelease p f) s = Some s' -> has_key f (running s) = false.
+  lapply (LRelease p f) s = Some s' ->
+  has_key f (running s) = false \/ (holder s' = holder s /\ running s' = running s).
 Print Assumptions C06_recorded_before_release.
 
 Theorem C06_invariant : forall es s s', inv s -> lrun es s = Some s' -> inv s'.
